@@ -265,6 +265,12 @@ RangesRespectedP(x) == \A c \in Sides : \A i \in Ids(x, c) : LET k == x.sk[c][i]
 FreedOnLastCloseP(x) == \A c \in Sides : \A a \in Addrs \ {0, 1} :
                             /\ \A j \in DOMAIN x.sap[c][a] : Live(x.sk[c][x.sap[c][a][j]])
                             /\ (\A i \in Ids(x, c) : ~(Live(x.sk[c][i]) /\ x.sk[c][i].addr = a)) => x.sap[c][a] = <<>>
+\* the addresses of a range are a conserved pool: each is either free or held by a live socket - closing gives it back,
+\* nothing is lost however often the range is handed out and returned
+HeldIn(x, c, R) == {a \in R : \E i \in Ids(x, c) : Live(x.sk[c][i]) /\ x.sk[c][i].addr = a}
+FreeIn(x, c, R) == {a \in R : ~Occupied(x, c, a)}
+AddrPoolConservedP(x) == \A c \in Sides : \A R \in {Named, Dyn} :
+                            FreeIn(x, c, R) \cap HeldIn(x, c, R) = {} /\ FreeIn(x, c, R) \cup HeldIn(x, c, R) = R
 \* every connection-mode PDU reaches the socket of the LIVE connection (addr, peer): in no access point does a socket
 \* that is not ESTABLISHED (CLOSE_WAIT, shut down, listening) stand before an ESTABLISHED one it would shadow
 LiveFirstP(x) == \A c \in Sides : \A a \in Addrs \ {0, 1} : \A i, j \in DOMAIN x.sap[c][a] :
@@ -299,6 +305,7 @@ OneAddrPerSocket == OneAddrPerSocketP(w)
 NoDoubleAlloc == NoDoubleAllocP(w)
 RangesRespected == RangesRespectedP(w)
 FreedOnLastClose == FreedOnLastCloseP(w)
+AddrPoolConserved == AddrPoolConservedP(w)
 Datagram == DatagramP(w)
 LiveFirst == LiveFirstP(w)
 \* the step properties are action properties over (w, w', last'): TLC checks them on every transition, also
@@ -444,5 +451,11 @@ W_DeadByRecv     == ~(last.op = "Recv" /\ last.res = "EOF")
 W_DeadByFrmr     == ~(last.op = "PeerFrmr")
 W_DeadByUi       == ~(last.op = "SendTo" /\ \E i \in 1..Len(w.sk[Peer(last.c)]) : w.sk[Peer(last.c)][i].st = "dead" /\ w.sk[Peer(last.c)][i].peer = NoAddr)
 W_DeadNamed      == ~(\E c \in Sides : \E i \in 1..Len(w.sk[c]) : w.sk[c][i].st = "dead" /\ w.sk[c][i].name # "" /\ w.sk[c][i].origin = "bind")
+\* (temporal, must be violated) the dynamic range is exhausted, an address is given back, and it is exhausted again:
+\* more allocations than the range has addresses
+DynFull == \A a \in Dyn : Occupied(w, "A", a)
+NeverDynRefilled == [](DynFull => [](~DynFull => []~DynFull))
+NamedFull == \A a \in Named : Occupied(w, "A", a)
+NeverNamedRefilled == [](NamedFull => [](~NamedFull => []~NamedFull))
 W_RebindAfterDead == ~(last.op = "BindName" /\ last.res = "OK" /\ \E i \in 1..Len(w.sk[last.c]) : i < last.s /\ w.sk[last.c][i].st = "shut" /\ w.sk[last.c][i].kind = "dlc")
 =============================================================================
